@@ -266,15 +266,29 @@ func cmdCheck(args []string) int {
 
 	// classify
 	var proofObs, canaries, failed, errored []*Oblig
+	var unreachable []string
+	deadRets, allRets := map[string]int{}, map[string]int{}
 	for _, o := range all {
 		switch {
 		case o.Kind == "canary":
 			canaries = append(canaries, o)
-			if o.Status == "failed" {
-				errored = append(errored, o)
-			}
 			if o.Status == "error" {
 				errored = append(errored, o)
+			}
+			if o.Status == "failed" {
+				// `assert false` was provable there.  For the precondition canary
+				// the contract is contradictory (the check is broken).  For a single
+				// return it may equally be dead code in the function, so it is only
+				// recorded - unless every return of the function is unreachable.
+				if strings.HasSuffix(o.Name, "#vacuity:requires") {
+					errored = append(errored, o)
+				} else {
+					unreachable = append(unreachable, o.Name)
+					deadRets[o.Fn]++
+				}
+			}
+			if strings.Contains(o.Name, "#vacuity:ret") {
+				allRets[o.Fn]++
 			}
 		default:
 			proofObs = append(proofObs, o)
@@ -284,6 +298,18 @@ func cmdCheck(args []string) int {
 				failed = append(failed, o)
 			}
 		}
+	}
+	for fn, n := range deadRets {
+		if n == allRets[fn] {
+			for _, o := range canaries {
+				if o.Fn == fn && o.Status == "failed" {
+					errored = append(errored, o)
+				}
+			}
+		}
+	}
+	for _, u := range unreachable {
+		fmt.Printf("  note: %s is unreachable under the contract (dead code, or an over-strong contract)\n", u)
 	}
 	if len(errored) > 0 {
 		for _, o := range errored {
@@ -396,6 +422,7 @@ func cmdCheck(args []string) int {
 			"backends":                  backends,
 			"per_obligation":            perOb,
 			"vacuity_canaries":          vac,
+			"unreachable_returns":       unreachable,
 			"solver_cpu_s":              round3(solverSecs),
 			"solver_wall_s":             round3(solveWall),
 			"load_ssa_s":                round3(loadSecs),
